@@ -258,12 +258,12 @@ def element_names(rng, n, kind=None):
         base = rng.choice([0, 0, 1, 5])
         names = list(range(base, base + n))
     elif kind == "bigint":
-        names = rng.sample(range(0, 200), n)
+        names = rng.sample(range(0, max(200, 2 * n)), n)
     elif kind == "str":
         pool = [w for w in WORDS if not w.isdigit()]
         names = rng.sample(pool, n) if n <= len(pool) else [f"e{i}" for i in range(n)]
     elif kind == "intlike":
-        names = [str(v) for v in rng.sample(range(0, 60), n)]
+        names = [str(v) for v in rng.sample(range(0, max(60, 2 * n)), n)]
     elif kind == "comma_space":
         # names that contain the separators used when a bucket is printed: different rankings can print identically
         pool = ["x", "x, x", "x, x, x", "a", "b", "a, b", "b, a", "c}, {d", "c", "d"]
@@ -276,7 +276,7 @@ def element_names(rng, n, kind=None):
         names = rng.sample(pool, min(n, len(pool)))
     elif kind == "int_and_str":
         # real ints next to words (and sometimes digit strings): the dataset must end up holding strings only
-        names = list(rng.sample(range(0, 60), n))
+        names = list(rng.sample(range(0, max(60, 2 * n)), n))
         k = rng.randrange(n)
         names[k] = rng.choice(["w", "a", "x1"])
         if n >= 3 and rng.random() < 0.5:
@@ -285,7 +285,7 @@ def element_names(rng, n, kind=None):
     elif kind == "digits_plus_word":
         # digit strings and a single word: the dataset holds strings, but a sub-problem made of digit strings only
         # is integer-like on its own
-        names = [str(v) for v in rng.sample(range(0, 60), n)]
+        names = [str(v) for v in rng.sample(range(0, max(60, 2 * n)), n)]
         names[rng.randrange(n)] = rng.choice(["w", "a", "x1"])
     else:
         pool = list(WORDS)
